@@ -517,7 +517,10 @@ def stabilizer_project(gs_stb, gs_obs, r):
         update = False
         extend = False
         p = 0 # pointer
-        for j in range(2*N):
+        for jj in range(2*N):
+            # scan active stabilizers [r,N) first, then standby rows, then active destabilizers:
+            # a standby row may become the pivot only if no active stabilizer anticommutes
+            j = jj + r if jj < N - r else (jj - (N - r) if jj < N else jj)
             if acq(gs_stb[j], gs_obs[k]): # find gs_stb[j] anticommute with gs_obs[k]
                 if update: # if gs_stb[j] is not the first anticommuting operator
                     gs_stb[j] = (gs_stb[j] + gs_stb[p])%2 # update gs_stb[j] to commute with gs_obs[k]
@@ -576,7 +579,10 @@ def stabilizer_measure(gs_stb, ps_stb, gs_obs, ps_obs, r):
         p = 0 # pointer
         ga[:] = 0
         pa = 0
-        for j in range(2*N):
+        for jj in range(2*N):
+            # scan active stabilizers [r,N) first, then standby rows, then active destabilizers:
+            # a standby row may become the pivot only if no active stabilizer anticommutes
+            j = jj + r if jj < N - r else (jj - (N - r) if jj < N else jj)
             if acq(gs_stb[j], gs_obs[k]): # find gs_stb[j] anticommute with gs_obs[k]
                 if update: # if gs_stb[j] is not the first anticommuting operator
                     # update gs_stb[j] to commute with gs_obs[k]
@@ -844,7 +850,10 @@ def stabilizer_projection_trace(gs_stb, ps_stb, gs_obs, ps_obs, r):
         p = 0 # pointer
         ga[:] = 0
         pa = 0
-        for j in range(2*N):
+        for jj in range(2*N):
+            # scan active stabilizers [r,N) first, then standby rows, then active destabilizers:
+            # a standby row may become the pivot only if no active stabilizer anticommutes
+            j = jj + r if jj < N - r else (jj - (N - r) if jj < N else jj)
             if acq(gs_stb[j], gs_obs[k]): # find gs_stb[j] anticommute with gs_obs[k]
                 if update: # if gs_stb[j] is not the first anticommuting operator
                     # update gs_stb[j] to commute with gs_obs[k]
